@@ -198,6 +198,38 @@ func TestVerifC08(t *testing.T) {
 			}
 		}
 	}
+	// (a') the policy table again with the client's first bytes arriving in a short first
+	// segment (1, 5, 19, 20, 21 bytes, or byte by byte): what an end refuses or
+	// accepts must not depend on how much of the first message the first read returns
+	firstCut := func(k int) policy {
+		return func(step int, p point) choice {
+			if step == 0 && p.PendC > 0 {
+				return choice{0, k}
+			}
+			return choice{0, 0}
+		}
+	}
+	for c := 0; c < 64; c++ {
+		for s := 0; s < 64; s++ {
+			if !mine() {
+				continue
+			}
+			so := optsFromBits(s)
+			co := optsFromBits(c)
+			// the cells in which a refusal is at stake (the others are covered by (a) and by C07)
+			if !(so.ForceCryptoHandshake || so.ForceEncryption || !so.AllowCryptoHandshake || co.ForceEncryption) {
+				continue
+			}
+			for _, mse := range []bool{false, true} {
+				cfg := hsConfig{MSE: mse, COpts: co, SOpts: so, PadC: 3, PadS: 5, EarlyC: c08Payload, EarlyS: c08Payload}
+				for _, k := range []int{1, 5, 19, 20, 21} {
+					h.judge(cfg, runHandshake(t, cfg, firstCut(k)), fmt.Sprintf("policy table, first segment of %d bytes", k))
+				}
+				h.judge(cfg, runHandshake(t, cfg, bytewise(1)), "policy table, client's bytes one at a time")
+				res.Add("policy_cells_segmented", 1)
+			}
+		}
+	}
 	// (d) key derivation when the Diffie-Hellman secret has leading zero bytes: the
 	// specification hashes S as a 96-byte integer.  storrent's private value is
 	// fixed by the scripted generator, so its public value is learnt in a probe
